@@ -30,6 +30,7 @@ fn main() {
         "C05P" => c05::run_pos(seed, tier, &mut out),
         "C07" => c07::run(seed, tier, &mut out),
         "C07T" => c07::run_threads(seed, tier, &mut out),
+        "C07G" => c07::run_glue(seed, tier, &mut out),
         "C10" => c10::run(seed, tier, &mut out),
         "C08" => c08::run(seed, tier, &mut out),
         "C08S" => c08s::run(seed, tier, &mut out),
